@@ -85,21 +85,31 @@ def pool(h, seed, small=10, mate=6, rep=4, game=8, term=0):
 def plan(h, sessions):
     """Attach to every go step the slices the engine's own parse_go_command / calculate_time_slice give (both colours)
     and the token list; TraceUci picks the colour from the tracked position and checks the contract."""
-    lines = sorted({st["line"] for steps in sessions for st in steps if st["do"] == "go"})
+    lines = sorted({st["line"] for steps in sessions for st in steps if st["do"] in ("go", "go_nowait")})
     if not lines:
         return
     d = os.path.join(vcommon.BUILD, "plan-%d" % os.getpid())
     os.makedirs(d, exist_ok=True)
     json.dump(lines, open(os.path.join(d, "in.json"), "w"))
-    vcommon.run_harness(h, ["slices", "--in", os.path.join(d, "in.json"), "--out", os.path.join(d, "out.ndjson")])
     table = {}
-    for l in open(os.path.join(d, "out.ndjson")):
-        e = json.loads(l)
-        table[e["line"]] = e
+    try:
+        vcommon.run_harness(h, ["slices", "--in", os.path.join(d, "in.json"), "--out", os.path.join(d, "out.ndjson")], timeout=60)
+        for l in open(os.path.join(d, "out.ndjson")):
+            e = json.loads(l)
+            table[e["line"]] = e
+    except Exception:
+        # the engine's go parser does not return on some line: find out which, one line per process
+        for ln in lines:
+            json.dump([ln], open(os.path.join(d, "one.json"), "w"))
+            try:
+                vcommon.run_harness(h, ["slices", "--in", os.path.join(d, "one.json"), "--out", os.path.join(d, "one.ndjson")], timeout=5)
+                table[ln] = json.loads(open(os.path.join(d, "one.ndjson")).readline())
+            except Exception:
+                table[ln] = {"line": ln, "toks": ln.split(), "panic": True}
     shutil.rmtree(d, ignore_errors=True)
     for steps in sessions:
         for st in steps:
-            if st["do"] == "go":
+            if st["do"] in ("go", "go_nowait"):
                 e = table[st["line"]]
                 ex = st.setdefault("extra", {})
                 if any(len(tk.lstrip("-")) > 9 for tk in e["toks"] if tk.lstrip("-").isdigit()):
@@ -177,7 +187,7 @@ def validate(run, pid, label, logs, also=(), shard_of=None, overhead=OVERHEAD_MS
                 if os.environ.get("VERIF_DEBUG"):
                     log("other: %s %s %s" % (prop, code, detail[:300]))
     run.add("traces_validated_against_impl", len(logs))
-    # upper timing bounds are confirmed in isolation (3 of 3) before they are reported
+    # upper timing bounds are confirmed in isolation (at least 2 of 3 re-runs) before they are reported
     for si, code, detail in late:
         confirmed = 0
         for _ in range(3):
@@ -189,8 +199,8 @@ def validate(run, pid, label, logs, also=(), shard_of=None, overhead=OVERHEAD_MS
             if any(b[2] == "answered-late" for b in rr[0]["verdict"]["bad"]):
                 confirmed += 1
             shutil.rmtree(dd, ignore_errors=True)
-        if confirmed == 3:
-            run.violation("%s:%s" % (code, re.sub(r"\s+", "_", detail)[:300]), "%s (reproduced 3/3 in isolation): %s" % (code, detail),
+        if confirmed >= 2:
+            run.violation("%s:%s" % (code, re.sub(r"\s+", "_", detail)[:300]), "%s (reproduced %d/3 in isolation): %s" % (code, confirmed, detail),
                           {"type": "session", "script": scripts[si], "label": label})
         else:
             run.cov["late_answers_not_reproduced"] = run.cov.get("late_answers_not_reproduced", 0) + 1
@@ -512,7 +522,7 @@ def c09(tier, replay):
     plan(h, sessions)
     logs = run_sessions(binary, sessions, 4)
     sample_session(run, sessions[0], logs[0])
-    totals = validate(run, "C09", "timed", logs, also=(), scripts=sessions, binary=binary)
+    totals = validate(run, "C09", "timed", logs, also=("C08",), scripts=sessions, binary=binary)
     # C09 owns both directions of the timing claim
     run.cov["timed_go"] = totals.get("gos", 0)
     model_walleye(run, tier)
@@ -554,6 +564,9 @@ def c16(tier, replay):
                 pre2.append({"do": "send", "line": toks[0] + (" moves " + " ".join(mv[:j]) if j else "")})
                 pre2.append({"do": "go", "line": rng.choice(GO_ZERO + GO_SMALL)})
             variants.append(pre2)
+            # only the first move of the probe's game before (a record that remembers the last position it was given)
+            variants.append([{"do": "send", "line": toks[0] + " moves " + mv[0]}])
+            variants.append([{"do": "send", "line": toks[0] + " moves " + mv[0]}, {"do": "go", "line": rng.choice(GO_ZERO)}])
         # ucinewgame / setoption / ignored lines / a finished game
         pre3 = [{"do": "send", "line": "ucinewgame"}, {"do": "send", "line": rng.choice(live)}, {"do": "send", "line": "setoption name Hash value 16"},
                 {"do": "send", "line": rng.choice(GARBAGE)}, {"do": "go", "line": rng.choice(GO_SMALL)}, {"do": "send", "line": "ucinewgame"}]
@@ -658,6 +671,16 @@ def c17(tier, replay):
     for b_ in bases[:1]:
         sessions.append([{"do": "send", "line": g} for g in LONG_GARBAGE] + [{"do": "isready"}, {"do": "quit"}])
         shard.append(rng.randint(0, 1000))
+    # end of input in the middle of a line: the last command has no line terminator
+    for pre in ([], [{"do": "send", "line": rng.choice(live)}], [{"do": "send", "line": ""}, {"do": "isready"}]):
+        sessions.append(pre + [{"do": "raw_isready_eof"}])
+        shard.append(rng.randint(0, 1000))
+    # the GUI disappears (input ends, nobody reads the output) while a go with a real clock is being served: the process
+    # must still end (within the slice plus the end-of-input limit), not stay behind spinning
+    for _ in range(3 if q else 20):
+        sessions.append([{"do": "send", "line": rng.choice(live)}, {"do": "go_nowait", "line": rng.choice(["go wtime 1100 btime 1100 movestogo 1", "go wtime 600 btime 600 movestogo 1"])},
+                         {"do": "gone", "pause_ms": rng.choice([5, 60, 200]), "wait_ms": 4000}])
+        shard.append(rng.randint(0, 1000))
     plan(h, sessions)
     logs = run_sessions(binary, sessions, 8)
     sample_session(run, sessions[1], logs[1])
@@ -690,7 +713,10 @@ def position_dumps(run, pid, tier):
     binary = vcommon.build_binary(True)
     q = tier == "quick"
     live, _ = pool(h, vcommon.seed() + 5, 4, 0, 10 if q else 60, 10 if q else 60)
-    reps = ["position startpos moves g1f3 g8f6 f3g1 f6g8 g1f3 g8f6 f3g1 f6g8", "position startpos moves b1c3 b8c6 c3b1 c6b8 b1c3 c6b8",
+    cyc = "g1f3 g8f6 f3g1 f6g8"
+    reps = ["position startpos moves " + " ".join([cyc] * 4), "position startpos moves " + " ".join([cyc] * 6) + " g1f3",
+            "position startpos moves g1f3", "position startpos moves g1f3 g8f6 f3g1 f6g8", "position startpos",
+            "position startpos moves g1f3 g8f6 f3g1 f6g8 g1f3 g8f6 f3g1 f6g8", "position startpos moves b1c3 b8c6 c3b1 c6b8 b1c3 c6b8",
             "position startpos moves e2e4 e7e5 g1f3 g8f6 f3g1 f6g8 g1f3 g8f6 f3g1 f6g8 d2d4"]
     sessions, traces = [], []
     d = R.trace_dir(pid + "-dump")
